@@ -20,6 +20,7 @@ from dv.evidence import Recorder, finish
 from checks.nodecommon import Result, record, generic_replay
 
 PID = "C09"
+LEVEL = "fault_enumeration"
 RULE = ("histories of 1..16 events {request on connection i with hop-by-hop from a pool of 3 (unique per "
         "connection among in-flight), submit the answer of the k-th held request, submit again, fault on "
         "connection i in {EOF, reset, DPR, DPR+close, close+reconnect}, advance} on 1..3 peers, basic "
@@ -363,7 +364,7 @@ def run(tier, scale=1.0):
         rec.merge(d)
     required = {"schedule-exploration": 1, "deviations:2": 1, "npeers:3": 1, "app:threading": 1, "fault:eof": 1, "fault:reset": 1, "fault:dpr": 1,
                 "fault:reconnect": 1, "out0:True": 1, "double-submission": 1, "equal-hbh-two-conns": 1, "reqs:4": 1}
-    return finish(rec, tier=tier, level="exploration", rule=RULE, assumptions=ASSUME, t0=t0,
+    return finish(rec, tier=tier, level=LEVEL, rule=RULE, assumptions=ASSUME, t0=t0,
                   required_classes=required)
 
 
